@@ -1,6 +1,11 @@
 package transform
 
-import "github.com/trajectoryjp/spatial_id_go/v4/common/object"
+import (
+	"math"
+	"strconv"
+
+	"github.com/trajectoryjp/spatial_id_go/v4/common/object"
+)
 
 // C17 — binary-subdivision altitude IDs cover the voxel and stay inside the height range.
 
@@ -93,5 +98,93 @@ func VerifC17Structure() {
 	top := int64(1)<<uint(zoom) - 1
 	vAssert(0 <= i1 && i1 <= top && 0 <= i2 && i2 <= top, "the index is inside 0..2^zoom-1 at every zoom")
 	vAssert(i1 <= i2, "the index is monotone in the altitude at every zoom")
+	vReach("end")
+}
+
+// vC17Back converts (quadkey 5 at zoom 3, bit index i at zoom z) pairs, each with its own height range, back to
+// extended IDs at (3, ov) and returns the vertical indices.
+func vC17Back(qs []*object.QuadkeyAndVerticalID, ov int64) []float64 {
+	ids, err := ConvertQuadkeysAndVerticalIDsToExtendedSpatialIDs(qs, 3, ov)
+	vAssert(err == nil, "a height range with max > min is accepted")
+	var fs []float64 // indices as (exact) floats: the oracle arithmetic stays in the real-sorted domain
+	for k := 0; k < len(ids); k++ {
+		s := vSplit(ids[k])
+		vAssert(len(s) == 5 && s[0] == "3" && s[3] == strconv.FormatInt(ov, 10), "results are extended IDs at the requested zooms")
+		f, perr := strconv.ParseInt(s[4], 10, 64)
+		vAssert(perr == nil, "integer vertical index")
+		fs = append(fs, float64(f))
+	}
+	return fs
+}
+
+// VerifC17Reverse: the reverse direction.  Case z (zoom of the bit index), i (the index, concrete so that the cell
+// bounds stay linear), ov (output vertical zoom), n.  n = 1: the run returned for cell i of the 2^z-fold subdivision of
+// [min, max) is contiguous, duplicate-free and covers the cell's altitude interval (up to the rounding of the two
+// bounds, 1e-6 m).  n = 2: two pairs with the SAME index but different height ranges in one request (either order)
+// give the union of what each gives alone.
+func VerifC17Reverse() {
+	z, i, ov := vCase("z"), vCase("i"), vCase("ov")
+	cell := math.Pow(2, float64(25-ov))
+	mx := vNondetFloat64("max")
+	mn := vNondetFloat64("min")
+	vAssume(-100000.0 <= mn && mn < mx && mx <= 100000.0)
+	vAssume(mx-mn >= 1e-3 && mx-mn <= 2*cell*float64(int64(1)<<uint(z))) // cells at most two output cells tall
+	q0 := object.NewQuadkeyAndVerticalID(3, 5, z, i, mx, mn)
+	if vCase("n") == 1 {
+		fs := vC17Back([]*object.QuadkeyAndVerticalID{q0}, ov)
+		vAssert(len(fs) >= 1 && len(fs) <= 4, "between one and four cells")
+		lo, hi := fs[0], fs[0]
+		dup := false
+		for k := 0; k < len(fs); k++ {
+			if fs[k] < lo {
+				lo = fs[k]
+			}
+			if fs[k] > hi {
+				hi = fs[k]
+			}
+			for j := 0; j < k; j++ {
+				if fs[j] == fs[k] {
+					dup = true
+				}
+			}
+		}
+		vAssert(!dup && float64(len(fs)) == hi-lo+1, "a contiguous, duplicate-free run")
+		w := vRDiv(vRSub(vR(mx), vR(mn)), vRI(int64(1)<<uint(z)))
+		bot := vRAdd(vR(mn), vRMul(vRI(i), w))
+		top := vRAdd(vR(mn), vRMul(vRI(i+1), w))
+		tol := vRDiv(vRI(1), vRI(1000000))
+		c := vR(cell)
+		vAssert(vRLe(vRMul(vR(lo), c), vRAdd(bot, tol)) && vRLe(vRSub(top, tol), vRMul(vR(hi+1), c)), "the run covers the cell's altitude interval")
+		vAssert(vRLt(vRSub(bot, tol), vRMul(vR(lo+1), c)) && vRLe(vRMul(vR(hi), c), vRAdd(top, tol)), "and does not reach beyond the cells that touch it")
+	} else {
+		// the second pair has the same index and a CONCRETE, far-away height range (so that only one run is symbolic);
+		// case ord puts it first or second in the request
+		q1 := object.NewQuadkeyAndVerticalID(3, 5, z, i, -299.0, -300.0)
+		req := []*object.QuadkeyAndVerticalID{q0, q1}
+		if vCase("ord") == 1 {
+			req = []*object.QuadkeyAndVerticalID{q1, q0}
+		}
+		both := vC17Back(req, ov)
+		a := vC17Back([]*object.QuadkeyAndVerticalID{q0}, ov)
+		b := vC17Back([]*object.QuadkeyAndVerticalID{q1}, ov)
+		p := math.Floor(vNondetFloat64("p"))
+		inBoth, inA, inB := false, false, false
+		for k := 0; k < len(both); k++ {
+			if both[k] == p {
+				inBoth = true
+			}
+		}
+		for k := 0; k < len(a); k++ {
+			if a[k] == p {
+				inA = true
+			}
+		}
+		for k := 0; k < len(b); k++ {
+			if b[k] == p {
+				inB = true
+			}
+		}
+		vAssert(inBoth == (inA || inB), "a request of two pairs gives the union of what each pair gives alone (each with its own height range)")
+	}
 	vReach("end")
 }
